@@ -779,6 +779,53 @@ impl Space for CalendarAnnotationLists {
     }
 }
 
+/// Zoned strings under all four offset options: offsets with seconds and fractions of a second, both signs,
+/// against fixed-offset zone annotations (the value is the wall-clock time minus the offset under `use`,
+/// the zone's own reading under `ignore`, a match or a RangeError under `reject`, a match or the zone under `prefer`).
+struct ZonedOffsetOptions;
+const ZO_OFFSETS: [(&str, i128); 14] = [
+    ("+00:00", 0),
+    ("-00:00", 0),
+    ("+00:00:01.5", 1_500_000_000),
+    ("-00:00:01.5", -1_500_000_000),
+    ("-00:00:00.000000001", -1),
+    ("+00:00:00.000000001", 1),
+    ("-01:30", -5_400_000_000_000),
+    ("-01:30:15.123456789", -5_415_123_456_789),
+    ("+05:30", 19_800_000_000_000),
+    ("+05:30:00.5", 19_800_500_000_000),
+    ("-23:59:59.999999999", -86_399_999_999_999),
+    ("+23:59:59.999999999", 86_399_999_999_999),
+    ("-00:30", -1_800_000_000_000),
+    ("+00:30:30", 1_830_000_000_000),
+];
+const ZO_ZONES: [(&str, i128); 5] = [("+00:00", 0), ("-01:30", -5_400_000_000_000), ("+05:30", 19_800_000_000_000), ("-00:30", -1_800_000_000_000), ("+23:59", 86_340_000_000_000)];
+impl Space for ZonedOffsetOptions {
+    fn name(&self) -> String {
+        "c12.zoned_offset_options".into()
+    }
+    fn len(&self) -> u64 {
+        (ZO_OFFSETS.len() * ZO_ZONES.len() * 3) as u64
+    }
+    fn eval(&self, i: u64, out: &mut Out) {
+        use temporal_rs::options::{Disambiguation, OffsetDisambiguation};
+        use tmc_ref::r6::{Disamb, OffsetInput, OffsetOpt, Zone};
+        let ix = unrank(i, &[3, ZO_ZONES.len() as u64, ZO_OFFSETS.len() as u64]);
+        let (otext, ons) = ZO_OFFSETS[ix[2]];
+        let (ztext, zns) = ZO_ZONES[ix[1]];
+        let (date, local) = [("1970-01-01T00:00:00", 0i128), ("2020-02-29T23:59:59.999999999", 1_583_020_799_999_999_999), ("1969-12-31T12:00:00.000000001", -43_199_999_999_999)][ix[0]];
+        out.nontrivial += 1;
+        let text = format!("{date}{otext}[{ztext}]");
+        let zone = Zone { initial: (zns / 1_000_000_000) as i64, trans: vec![] };
+        let minute_precision = otext.len() == 6;
+        for (oname, opt, iopt) in [("use", OffsetOpt::Use, OffsetDisambiguation::Use), ("ignore", OffsetOpt::Ignore, OffsetDisambiguation::Ignore), ("reject", OffsetOpt::Reject, OffsetDisambiguation::Reject), ("prefer", OffsetOpt::Prefer, OffsetDisambiguation::Prefer)] {
+            let model = zone.interpret(local, OffsetInput::Offset { ns: ons, minute_precision }, Disamb::Compatible, opt).map_err(|_| ErrorKind::Range);
+            let got = call(|| ZonedDateTime::from_str_with_provider(&text, Disambiguation::Compatible, iopt, &crate::providers::ErrProvider));
+            out.lockstep("ZonedDateTime::from_str (offset option)", &model, &got, |a, b| b.epoch_nanoseconds().as_i128() == *a, || vec![("string", text.clone()), ("offset_option", oname.to_string()), ("offset_sign", if otext.starts_with('-') { "negative" } else { "positive" }.to_string()), ("offset_has_fraction", otext.contains('.').to_string())]);
+        }
+    }
+}
+
 struct TailProduct {
     dates: Vec<&'static str>,
 }
@@ -1018,6 +1065,7 @@ pub fn spaces(env: &Env) -> Vec<Box<dyn Space>> {
         Box::new(Mutations { double: false }),
         Box::new(DateProduct),
         Box::new(CalendarAnnotationLists::new()),
+        Box::new(ZonedOffsetOptions),
         Box::new(TailProduct { dates: if quick { vec!["2020-02-29", ""] } else { vec!["2020-02-29", "", "20200229", "+275760-09-13", "-271821-04-20", "1972-02", "--12-31", "2021-02-29"] } }),
         Box::new(DurationProduct { values: if quick { vec!["", "1", "4294967296"] } else { vec!["", "0", "1", "4294967295", "4294967296"] } }),
         Box::new(ShortStrings { max_len: if quick { 5 } else { 6 } }),
